@@ -206,6 +206,86 @@ def install_inv(cx):
     cx.patch(LA, 'anp', shim)
 
 
+class _FloatLike(np.ndarray):
+    """object array of symbolic reals that reports the dtype numpy would have given to real data (the einsum wrapper dispatches on it)"""
+    @property
+    def dtype(self):
+        return np.dtype(float)
+
+
+def _einsum_explicit(subs, ops):
+    """Einstein summation written out: loops over every index value (two-dimensional operands)"""
+    import itertools
+    ins, out = subs.split('->')
+    ins = ins.split(',')
+    dims = {}
+    for lab, op in zip(ins, ops):
+        for ax, ch in enumerate(lab):
+            dims[ch] = op.shape[ax]
+    letters = sorted(dims)
+    res = {}
+    for vals in itertools.product(*[range(dims[c]) for c in letters]):
+        env = dict(zip(letters, vals))
+        term = 1
+        for lab, op in zip(ins, ops):
+            term = term * op[tuple(env[c] for c in lab)]
+        key = tuple(env[c] for c in out)
+        res[key] = res.get(key, 0) + term
+    return res
+
+
+def h_einsum(cx, subs, shapes, cfg):
+    """linalg.einsum (jackknife based): exact central value, fluctuations = those of the pseudo-values of the sample-wise Einstein sum.
+    numpy.einsum itself runs on the object arrays of jackknife samples; only its result is given the float dtype the wrapper dispatches on."""
+    import pyerrors as pe
+    import pyerrors.linalg as LA
+    lib.sym_env(cx, *MODS)
+    if cx.mode == 'sym':
+        sh = vars(LA)['np']
+        real_einsum = np.einsum
+        cx.patch(sh, 'einsum', lambda *a, **k: np.asarray(real_einsum(*a, **k), dtype=object).view(_FloatLike))
+    lay = {'e|r1': cfg}
+    N = len(cfg)
+    mats, J = [], []
+    for f, shp in enumerate(shapes):
+        M = np.empty(tuple(shp), dtype=object)
+        Jf = np.empty(tuple(shp), dtype=object)
+        for idx in np.ndindex(*shp):
+            o, s = lib.mk_obs(cx, '%s%s' % ('ABC'[f], ''.join(map(str, idx))), lay)
+            M[idx] = o
+            Jf[idx] = _jack([s.deltas['e|r1'][c] + s.r_values['e|r1'] for c in cfg])
+        mats.append(M)
+        J.append(Jf)
+    R = pe.linalg.einsum(subs, *mats)
+    per_sample = []
+    for smp in range(N + 1):
+        ops = []
+        for Jf in J:
+            A = np.empty(Jf.shape, dtype=object)
+            for idx in np.ndindex(*Jf.shape):
+                A[idx] = Jf[idx][smp]
+            ops.append(A)
+        per_sample.append(_einsum_explicit(subs, ops))
+    keys = sorted(per_sample[0])
+    if keys == [()]:
+        got = {(): R}
+        cx.expect(isinstance(R, pe.Obs), 'scalar result is an Obs')
+    else:
+        got = {k: R[k] for k in keys}
+    for k in keys:
+        r = got[k]
+        js = [ps[k] for ps in per_sample]
+        if not lib.check_wellformed(cx, r, 'einsum%s' % (list(k),)):
+            continue
+        cx.prove_eq(r.value, js[0], 'einsum%s: exact central value' % (list(k),))
+        tot = sum(js[1:])
+        pseudo = [tot - (N - 1) * js[c + 1] for c in range(N)]
+        mean = sum(pseudo) / N
+        for c in range(N):
+            cx.prove_eq(r.deltas['e|r1'][c], pseudo[c] - mean, 'einsum%s: delta[%d]' % (list(k), cfg[c]))
+        cx.expect(list(r.idl['e|r1']) == list(cfg), 'einsum%s: idl' % (list(k),))
+
+
 def h_inv(cx, n, lays, cplx=False, numbers=False, e2e=False, real_at=(), cobs_real_at=()):
     """inv() under the contract "anp.linalg.inv returns X with M X = 1 (dX = -X dM X)".
     Decomposed (the bilinear end-to-end identity A inv(A) = 1 with all fluctuations is beyond nlsat for n >= 2):
@@ -303,6 +383,58 @@ def h_inv(cx, n, lays, cplx=False, numbers=False, e2e=False, real_at=(), cobs_re
                         lib.obs_equiv(cx, e, lib.const_spec(unit), '%s[%d,%d]' % (name, i, j))
 
 
+def _leibniz(M):
+    """determinant by the Leibniz formula (the definition); entries may be symbolic reals or dual numbers, so the derivative comes out by the product rule"""
+    import itertools
+    M = np.asarray(M, dtype=object)
+    n = M.shape[0]
+    tot = 0
+    for p in itertools.permutations(range(n)):
+        sgn = 1
+        for i in range(n):
+            for j in range(i + 1, n):
+                if p[i] > p[j]:
+                    sgn = -sgn
+        term = sgn
+        for i in range(n):
+            term = term * M[i, p[i]]
+        tot = tot + term
+    return tot
+
+
+def h_det(cx, n, lays, numbers=(), int_first=False):
+    """linalg.det equals the cofactor (Leibniz) expansion built with the Obs operators, as an identity between observables.
+    anp.linalg.det is replaced by the Leibniz polynomial on symbolic / dual entries (its definition); numbers: positions holding plain numbers"""
+    import pyerrors as pe
+    import pyerrors.linalg as LA
+    import autograd.numpy as anp
+    lib.sym_env(cx, *MODS)
+    if cx.mode == 'sym':
+        la = types.SimpleNamespace(**{k: getattr(anp.linalg, k) for k in dir(anp.linalg) if not k.startswith('_')})
+        la.det = _leibniz
+        shim = types.SimpleNamespace(**{k: getattr(anp, k) for k in dir(anp) if not k.startswith('__')})
+        shim.linalg = la
+        cx.patch(LA, 'anp', shim)
+    A = mk_matrix(cx, 'A', n, lays, numbers=numbers)
+    if int_first:
+        A[0, 0] = 2            # a plain Python int as first entry (numpy infers dtypes from first elements)
+    r = pe.linalg.det(A)
+    import itertools
+    tot = None
+    for p in itertools.permutations(range(n)):
+        sgn = 1
+        for i in range(n):
+            for j in range(i + 1, n):
+                if p[i] > p[j]:
+                    sgn = -sgn
+        term = None
+        for i in range(n):
+            term = A[i, p[i]] if term is None else term * A[i, p[i]]
+        term = term * sgn
+        tot = term if tot is None else tot + term
+    equiv(cx, r, tot, 'det = cofactor expansion')
+
+
 def h_scalar_op(cx, n, lays):
     """_scalar_mat_op reassembles the raveled observables row-major: a probe operator picking element (i,j) returns that entry"""
     import pyerrors as pe
@@ -336,7 +468,7 @@ def h_array_mode(cx, lays):
             equiv(cx, R[i, j], E[i, j] - 2 * B[i, j], 'array_mode[%d,%d]' % (i, j))
 
 
-HARNESSES = dict(matmul=h_matmul, jack_matmul=h_jack_matmul, inv=h_inv, scalar_op=h_scalar_op, array_mode=h_array_mode)
+HARNESSES = dict(matmul=h_matmul, jack_matmul=h_jack_matmul, inv=h_inv, scalar_op=h_scalar_op, det=h_det, einsum=h_einsum, array_mode=h_array_mode)
 
 
 def jobs(tier, seed):
@@ -387,6 +519,18 @@ def jobs(tier, seed):
     add('inv', n=2, lays=[E], cplx=True, real_at=[[1, 0]], numbers=False)
     add('scalar_op', n=2, lays=[E, Ei, F_])
     add('scalar_op', n=3, lays=[E, F_])
+    # determinant = cofactor expansion (Leibniz polynomial stands for anp.linalg.det; derivative by the product rule on dual numbers)
+    # jackknife based Einstein summation: subscripts get the sample axis appended; matrix product, A B^T, full contraction, three operands
+    add('einsum', subs='ij,jk->ik', shapes=[[2, 2], [2, 2]], cfg=[1, 2, 3, 4, 5])
+    add('einsum', subs='ij,kj->ik', shapes=[[2, 3], [1, 3]], cfg=[2, 4, 6, 8, 10])
+    add('einsum', subs='ij,ji->', shapes=[[2, 2], [2, 2]], cfg=[1, 2, 3, 5, 6])
+    add('einsum', subs='ij,jk,kl->il', shapes=[[1, 2], [2, 2], [2, 1]], cfg=[1, 2, 3, 4, 5])
+    add('det', n=1, lays=[E])
+    add('det', n=2, lays=[E, Ei, F_])
+    add('det', n=2, lays=[E, F_], numbers=[[1, 0]])
+    add('det', n=2, lays=[E, F_], int_first=True)
+    add('det', n=3, lays=[E, F_])
+    add('det', n=3, lays=[M2, R1, E], numbers=[[0, 2], [2, 0]])
     add('array_mode', lays=[E, Ei, F_])
     if tier == 'thorough':
         add('matmul', n=3, nf=2, lays=[E, Ei, F_])
@@ -428,10 +572,10 @@ META = dict(
                 'modulo the library\'s embedding, to the explicit sum of element products built with the Obs/CObs operators; jack_matmul has the exact central value and the fluctuations '
                 'of the jackknife pseudo-values of the sample-wise product; inv() satisfies A inv(A) = inv(A) A = 1 as an identity between observables (value and every fluctuation) '
                 'under the contract "anp.linalg.inv returns X with A X = 1, differentiated dX = -X dA X", which decides the [[A,-B],[B,A]] embedding and the op_A/op_B extraction for complex '
-                'matrices; _scalar_mat_op reassembles row-major (probe operator).',
+                'matrices; _scalar_mat_op reassembles row-major (probe operator); det equals the cofactor expansion (Leibniz polynomial for anp.linalg.det, n <= 3); einsum (real operands; matrix product, A B^T, full contraction, three factors) has the exact central value and the jackknife pseudo-value fluctuations of the sample-wise Einstein sum.',
     bounds='1x1 and 2x2 (thorough 3x3) matrices, 2-3 factors, real and complex entries, entries on 1-2 ensembles with regular / irregular lists of 5 configurations, one plain-number entry.',
-    outside=['cholesky, det, eigh, eig, eigv, pinv, svd identities: LAPACK decompositions with autograd vjps cannot be encoded (not applicable)',
-             'einsum: numpy.einsum dispatches on float/complex dtype, symbolic (object) data cannot pass', 'the O(1/N) statement about jackknife fluctuations is not an SMT statement'],
+    outside=['cholesky, eigh, eig, eigv, pinv, svd identities: LAPACK decompositions with autograd vjps cannot be encoded (not applicable); det is covered for n <= 3 as a polynomial',
+             'einsum with complex (CObs) operands (the real case is covered: numpy.einsum runs on the object arrays of jackknife samples, its result is given the float dtype the wrapper dispatches on)', 'the O(1/N) statement about jackknife fluctuations is not an SMT statement'],
     stubs=['numpy shim', 'autograd.jacobian -> dual numbers', 'anp.linalg.inv -> fresh X with A X = 1 and dX = -X dA X'],
     assumptions=['matrices handed to inv are regular'],
 )
